@@ -304,6 +304,42 @@ def wbufHandle (desc pat : String) : String :=
       | none => "panic ## ?"
       | some (all, out) => s!"all={hexOrDash all} " ++ " ".intercalate out ++ " ## " ++ spec
 
+/-! ### `sdc`: a real connection typed with a segmented payload (mirror of `e_c14.rs`, engine `sdc`) -/
+
+/-- the calls in order (their bytes), the credit: which calls return, what the stream holds -/
+def sdcRender (items : List Bytes) (credit : Nat) : String :=
+  let total := items.flatten
+  let rec go : List Bytes → Nat → List String
+    | [], _ => ["ok"]                       -- `finish()`
+    | b :: r, acc => if acc + b.length ≤ credit then "ok" :: go r (acc + b.length) else ["pending"]
+  let calls := go items 0
+  let whole := decide (total.length ≤ credit)
+  s!"0:tx={toHex (total.take credit)}" ++ (if whole then ",fin" else "") ++ " calls=" ++ ",".intercalate calls
+
+def sdcHandle (wcS grantsS : String) (rest : List String) : String :=
+  let grants : Option (List Nat) :=
+    if grantsS == "-" then some [] else (splitC ',' grantsS.toList).mapM natOf
+  match wcS.toNat?, grants with
+  | some wc, some gs =>
+    let fs : Option Bytes := rest.findSome? (fun t =>
+      match t.toList with | '#' :: 'f' :: 's' :: ':' :: h => hexOf h | _ => none)
+    let pays : Option (List (List Bytes)) :=
+      (rest.filter (fun t => !t.startsWith "#")).mapM (fun t => parseSegs t.toList)
+    (match fs, pays with
+     | some fs, some pays =>
+       let credit := wc + gs.foldl (· + ·) 0
+       let model : Option (List Bytes) :=
+         (fromFrame (.headers fs) :: pays.map (fun p => (fromDataC p).map WBC.flat)).mapM
+           (fun w => w.map (·.view))
+       let spec : Option (List Bytes) :=
+         (specFrame (.headers fs) :: pays.map (fun p => specFrame (.data p.flatten))).mapM id
+       let specS := match spec with | some items => sdcRender items credit | none => "?"
+       (match model with
+        | some items => sdcRender items credit ++ " ## " ++ specS
+        | none => "panic ## ?")
+     | _, _ => "bad-op")
+  | _, _ => "bad-op"
+
 /-! ### rendering of per-stream logs -/
 
 structure SLog where
@@ -1160,6 +1196,8 @@ def outHandle (role cfgS : String) (ops : List String) : String :=
 
 def handle : List String → String
   | ["wbuf", desc, pat] => wbufHandle desc pat
+  | "sdc" :: "client" :: wc :: grants :: rest => sdcHandle wc grants rest
+  | "sdc" :: "server" :: wc :: grants :: rest => sdcHandle wc grants rest
   | "out" :: role :: cfg :: ops => outHandle role cfg ops
   | "outlog" :: role :: cfg :: toks => outlogHandle role cfg toks
   | _ => "bad-op"
